@@ -93,3 +93,13 @@ def alistAppendTo {κ ν : Type} [BEq κ] (k : κ) (v : ν) : AList κ (List ν)
 def pyCombinations2 {α : Type} : List α → List (α × α)
   | [] => []
   | a :: l => l.map (fun b => (a, b)) ++ pyCombinations2 l
+
+/-- a pandas Series with the default labels: (label, value) pairs -/
+def pySeries {α : Type} (l : List α) : List (Nat × α) := l.zipIdx.map fun x => (x.2, x.1)
+/-- `series.loc[mask]`: rows kept with their labels -/
+def pyLocMask {α : Type} (s : List (Nat × α)) (mask : List Bool) : List (Nat × α) := pyCompress s mask
+/-- `series.iloc[positions]` (positions out of range would raise; they are dropped here -- the refinement theorem shows they do not occur) -/
+def pyIloc {α : Type} (s : List (Nat × α)) (pos : List Nat) : List (Nat × α) := pos.filterMap fun i => s[i]?
+/-- `flatten_tuples`: the owner index of every element, and the elements, in order -/
+def pyFlattenTuples {α : Type} (ls : List (List α)) : List Nat × List α :=
+  (ls.zipIdx.flatMap (fun x => x.1.map fun _ => x.2), ls.flatMap id)
